@@ -72,6 +72,33 @@ spelling (`DD/Doc.lean`, the same reference `Gen.applyTable` of `dd.bdd` is prov
 for all 8 operand valuations.  Source level only; see the header for what is trusted. -/
 theorem cApply_sound : Gen.cApply.all cTableSound = true := by decide
 
+/-- `cApply_sound` spelled out for the propositional connectives: for every back end `t`, every
+row `r` of its `apply` table whose branch returns the C expression `e`, and every operand
+valuation, `evalC e` is the documented connective of the spelling. -/
+theorem cApply_sound_forall :
+    ∀ t ∈ Gen.cApply, ∀ r ∈ t.rows, ∀ e c, r.outcome = .ret e → docConn r.alias = some c →
+      isQuant c = false → ∀ u v w : Bool, evalC e u v w = some (c.eval u v w) := by
+  intro t ht r hr e c he hc hq u v w
+  have h := List.all_eq_true.mp cApply_sound t ht
+  have h2 := List.all_eq_true.mp h r hr
+  unfold cRowSound at h2
+  rw [he] at h2
+  simp only [hc, hq] at h2
+  have h3 : (cBools.all fun u => cBools.all fun v => cBools.all fun w =>
+      evalC e u v w == some (c.eval u v w)) = true := by
+    revert h2
+    simp only [Bool.and_eq_true, Bool.false_eq_true, ↓reduceIte]
+    exact fun h => h.2
+  have mem : ∀ b : Bool, b ∈ cBools := by intro b; cases b <;> simp [cBools]
+  have := List.all_eq_true.mp (List.all_eq_true.mp (List.all_eq_true.mp h3 u (mem u)) v (mem v)) w (mem w)
+  exact eq_of_beq this
+
+/-- the operator methods of the handles (`~u`, `u & v`, `u | v`, `u.implies(v)`, `u.equiv(v)`)
+and `ite` of the managers, where a back end defines them, compute the connective of the
+corresponding `apply` spelling (same evaluator, same trusted tables) -/
+theorem cOperators_sound : (Gen.cOperators.all fun x => x.2.2.accepted && cRowSound x.2.2) = true := by
+  decide
+
 /-- all four back ends are present and each table lists the whole `dd._abc` vocabulary -/
 theorem cApply_complete :
     Gen.cApply.map (·.backend) = [.cudd, .cuddZdd, .sylvan, .buddy] ∧
@@ -152,6 +179,15 @@ theorem cQuant_modes :
     cQuantMode .cudd "\\A" = some .cubeArg ∧ cQuantMode .cuddZdd "\\A" = some .supportOf ∧
     cQuantMode .sylvan "\\A" = some .cubeArg ∧ cQuantMode .buddy "\\A" = none := by decide
 
+/-- the reader's own table of quantifier signatures (`cpyx.QUANT_SIG`, used by the Python
+oracle) and the one of `DD/CWrap.lean` give the same roles on every accepted quantifier row -/
+def cRolesConsistent : Bool :=
+  (Gen.cApply.all fun t => t.rows.all fun r =>
+    !(r.accepted && isQuantAlias r.alias) ||
+    (Gen.cQuantRolesPy.filter fun x => x.1 == t.backend && x.2.1 == r.alias).map (·.2.2)
+      == (cRowRoles r).toList) &&
+  (Gen.cQuantRolesPy.all fun x => (rowOf x.1 x.2.1).any fun r => r.accepted && isQuantAlias r.alias)
+
 /-! ### vocabulary -/
 
 def acceptedOps (t : CApplyTable) : List String :=
@@ -187,6 +223,14 @@ def cVocabOk (t : CApplyTable) : Bool :=
 Sylvan; the module's own `Literal[...]` for BuDDy), all of it inside `dd._abc`'s vocabulary.
 A smaller vocabulary (BuDDy) is data (`cMissing`), not a failure. -/
 theorem cVocab : Gen.cApply.all cVocabOk = true := by decide
+
+/-- the Python-side views emitted next to the tables (`Gen.cAcceptedPy`, `Gen.cQuantRolesPy`)
+agree with what is derived here from the expression trees -/
+theorem cTables_consistent :
+    cRolesConsistent = true ∧
+    (Gen.cApply.all fun t =>
+      (Gen.cAcceptedPy.find? (·.1 == t.backend)).map (·.2) == some (acceptedOps t)) = true := by
+  decide
 
 /-- the three full back ends reject nothing of the vocabulary -/
 theorem cVocab_full :
